@@ -858,7 +858,7 @@ func main() {
 	if c == nil {
 		return
 	}
-	c.Rule("E1: (a) all single-field deviations over extreme-value alphabets (negative / huge integers, empty / 9000-char / control-character strings, nil / empty / 300-entry maps, nil / empty / 1000-entry lists, malformed addresses) of all 18 message types (NewProxy for all 8 proxy types) sent to the real frps as first message of a connection and on an established session, and of the server-to-client types sent by a model server to the real frpc; (a2) malformed user-side input on the tcpmux CONNECT port (14 Proxy-Authorization shapes x 2 hosts, 14 malformed request heads) and on the https port (a real ClientHello with each of its first 80 bytes set to 0xff / 0x00 or truncated there); after each case a bystander session, its tunnel, a fresh login and a fresh tunnel must work, no managed thread may have panicked (= process crash) and none may be stuck after teardown; (b) seven concurrent mixed-traffic storms, the statistics collector of the dashboard switched on (registration / closure / groups / session cut; secret proxies, visitors and NAT-hole messages against closing proxies; re-login with work connections for dying sessions; user connections waiting for a work connection while the session is cut; NAT-hole sessions of two visitors starting, being answered and ending together; two users' traffic through two proxies while a third proxy comes and goes; users routed by the CONNECT muxer handed to their proxy's listener while that proxy closes / its session is cut; the two-thread version of that hand-off with 2 deviations) and the control connection's request/response lanes with duplicated, late and too-late answers, and the in-process listener (two puts, an accepting owner, a close) (3 deviations each), a client that is stopped while it logs in or right after (2 deviations), a visitor of each kind whose bind port is busy (1 deviation), under all schedules with at most B deviations (two default orders) with the happens-before detector on every struct-field map of the instrumented packages; non-trivial = distinct (position, type, field, value)")
+	c.Rule("E1: (a) all single-field deviations over extreme-value alphabets (negative / huge integers, empty / 9000-char / control-character strings, nil / empty / 300-entry maps, nil / empty / 1000-entry lists, malformed addresses) of all 18 message types (NewProxy for all 8 proxy types) sent to the real frps as first message of a connection and on an established session, and of the server-to-client types sent by a model server to the real frpc; (a2) malformed user-side input on the tcpmux CONNECT port (14 Proxy-Authorization shapes x 2 hosts, 14 malformed request heads) and on the https port (a real ClientHello with each of its first 80 bytes set to 0xff / 0x00 or truncated there); after each case a bystander session, its tunnel, a fresh login and a fresh tunnel must work, no managed thread may have panicked (= process crash) and none may be stuck after teardown; (b) seven concurrent mixed-traffic storms, the statistics collector of the dashboard switched on (registration / closure / groups / session cut; secret proxies, visitors and NAT-hole messages against closing proxies; re-login with work connections for dying sessions; user connections waiting for a work connection while the session is cut; NAT-hole sessions of two visitors starting, being answered and ending together; two users' traffic through two proxies while a third proxy comes and goes; users routed by the CONNECT muxer handed to their proxy's listener while that proxy closes / its session is cut; the two-thread version of that hand-off with 2 deviations (session cut: 1 in the quick tier)) and the control connection's request/response lanes with duplicated, late and too-late answers, and the in-process listener (two puts, an accepting owner, a close) (3 deviations each), a client that is stopped while it logs in or right after (2 deviations), a visitor of each kind whose bind port is busy (1 deviation), under all schedules with at most B deviations (two default orders) with the happens-before detector on every struct-field map of the instrumented packages; non-trivial = distinct (position, type, field, value)")
 	pool := vs.GetPool(c.Workers)
 	var names []string
 	wdummy := map[string]msg.Message{}
@@ -931,6 +931,8 @@ func main() {
 	c.Sample(map[string]any{"cases": []string{names[0], names[len(names)/2], names[len(names)-1]}})
 	c.Note("field_cases", len(names))
 	b := drv.Pick(c, 1, 2)
+	c.ExploreBoth("handoff|close", 2, 0.2)
+	c.ExploreBoth("handoff|cut", drv.Pick(c, 1, 2), 0.2) // the session cut unwinds through many more scheduling points
 	for v := 0; v < 7; v++ {
 		c.ExploreBoth(fmt.Sprintf("storm|%d", v), b, 1.0/float64(7-v+1))
 	}
@@ -938,9 +940,6 @@ func main() {
 		c.ExploreBoth("lane|"+v, 3, 0.25)
 	}
 	c.ExploreBoth("ilisten", 3, 0.5)
-	for _, h := range []string{"close", "cut"} {
-		c.ExploreBoth("handoff|"+h, 2, 0.3)
-	}
 	for _, k := range []string{"stcp", "sudp", "xtcp"} {
 		c.ExploreBoth("vbusy|"+k, 1, 0.3)
 	}
